@@ -1,3 +1,14 @@
-module bounded
+module github.com/bufbuild/verif/bounded
 
 go 1.23.4
+
+require (
+	github.com/bufbuild/buf v0.0.0
+	github.com/bufbuild/protoplugin v0.0.0-20250218205857-750e09ce93e1
+	github.com/klauspost/compress v1.18.0
+	google.golang.org/protobuf v1.36.6
+)
+
+require github.com/google/uuid v1.6.0
+
+replace github.com/bufbuild/buf => /repo
